@@ -381,3 +381,403 @@ def c15_varied(rng, count):
         alpha = [c for c in b"abc xy" if bytes([c]) != eol]
         out.append(Case(argv, gen_input(rng, delim, alpha, eol, maxrec=4, maxfields=6)))
     return out
+
+
+# ---------------------------------------------------------------- C02 .. C19 families
+
+def c02(rng, count):
+    """the same options through the fast lane and through the general path (lib channel),
+    plus the real binary"""
+    out = []
+    g = 0
+    while len(out) < count:
+        g += 1
+        delim = rng.choice([b"-", b",", b" ", b"a", b"\t", b":"])
+        z = rng.random() < 0.2
+        eol = b"\0" if z else b"\n"
+        neg = rng.choice([0, 0, 0, 0.3])
+        argv = ["-d", delim, "-f", gen_bounds(rng, hi=rng.choice([3, 6]), neg=neg, fb=0.2)] + field_opts(rng, delim, fast=True) + (["-z"] if z else [])
+        alpha = pick_alphabet(rng, delim, eol)
+        data = gen_input(rng, delim, alpha, eol, maxfields=9, run_p=0.1)
+        for entry in ("general", "fast"):
+            out.append(Case(argv, data, entry=entry, tags={"grp": g, "role": entry}))
+        if rng.random() < 0.4:
+            out.append(Case(argv, data, entry="main", tags={"grp": g, "role": "cli"}))
+    return out
+
+
+def _count_fields(rec, d):
+    return rec.count(d) + 1
+
+
+def c03(rng, count):
+    """-M against the same invocation without -M, on records where every requested range is
+    wholly present or wholly absent"""
+    out = []
+    g = 0
+    tries = 0
+    while len(out) < count and tries < count * 20:
+        tries += 1
+        delim = rng.choice([b"-", b",", b" "])
+        z = rng.random() < 0.2
+        eol = b"\0" if z else b"\n"
+        # structured forward bounds
+        cur = 0
+        bs = []
+        for i in range(rng.randint(1, 3)):
+            l = cur + rng.randint(1, 2)
+            k = rng.random()
+            if k < 0.5: b = (l, l)
+            elif k < 0.8: b = (l, l + rng.randint(1, 2))
+            else:
+                b = (l, None)
+            fb = rng.choice([None, None, "x", "", "x-y"])
+            bs.append(b + (fb,))
+            if b[1] is None:
+                break
+            cur = b[1]
+        btxt = ",".join(_render(b) for b in bs)
+        if rng.random() < 0.3:
+            texts = ["", "x", " ", "{{", "}}", "\\n", "é", "<>", "-"]
+            btxt = rng.choice(texts) + "".join("{" + _render(b) + "}" + rng.choice(texts) for b in bs)
+        opts = []
+        if rng.random() < 0.3: opts.append("-j")
+        if rng.random() < 0.25: opts += ["-r", rng.choice(["/", "+"])]
+        if rng.random() < 0.4: opts += ["--fallback-oob", rng.choice(["", "G", "gg"])]
+        if z: opts.append("-z")
+        alpha = pick_alphabet(rng, delim, eol)
+        data = gen_input(rng, delim, alpha, eol, maxfields=7, run_p=0.15)
+        recs = data.split(eol)
+        if recs and recs[-1] == b"":
+            recs = recs[:-1]
+        ok = True
+        for r in recs:
+            if r == b"":
+                continue
+            n = _count_fields(r, delim)
+            for (l, rr, _) in bs:
+                if rr is not None and l <= n < rr:
+                    ok = False
+        if not ok:
+            continue
+        g += 1
+        base = ["-d", delim, "-f", btxt] + opts
+        k = len(data)
+        seg = []
+        if k and rng.random() < 0.5:
+            left = k
+            while left > 0:
+                s = rng.randint(1, min(left, rng.choice([1, 2, 3, 8])))
+                seg.append(s); left -= s
+        out.append(Case(["-M", "1"] + base, data, entry="stream", seg=seg, tags={"grp": g, "role": "stream"}))
+        out.append(Case(base, data, entry="main", tags={"grp": g, "role": "plain"}))
+        if rng.random() < 0.3:
+            out.append(Case(["-M", "1"] + base, data, entry="main", tags={"grp": g, "role": "stream_cli"}))
+    return out
+
+
+def _rand_seg(rng, k):
+    seg = []
+    left = k
+    mx = rng.choice([1, 2, 3, 8])
+    while left > 0:
+        s = rng.randint(1, min(left, mx))
+        seg.append(s); left -= s
+    return seg
+
+
+def c04(rng, count, exhaustive_upto=0):
+    """one input, several segmentations (lib channel with a BufRead double; the real binary
+    through the read shim)"""
+    out = []
+    g = 0
+    while len(out) < count:
+        g += 1
+        delim = rng.choice([b"-", b","])
+        z = rng.random() < 0.15
+        eol = b"\0" if z else b"\n"
+        argv = ["-M", "1", "-d", delim, "-f", gen_forward_bounds(rng, hi=5)] + (["-z"] if z else [])
+        if rng.random() < 0.3: argv.append("-j")
+        if rng.random() < 0.25: argv += ["-r", "/"]
+        if rng.random() < 0.35: argv += ["--fallback-oob", rng.choice(["", "G"])]
+        alpha = [c for c in (list(b"ab") + [delim[0]]) if c != eol[0]]
+        data = gen_input(rng, delim, alpha, eol, maxrec=3, maxfields=5, maxlen=3, run_p=0.2)
+        if not data:
+            data = rng.choice([eol, delim, b"a"])
+        k = len(data)
+        out.append(Case(argv, data, entry="stream", seg=[], tags={"grp": g, "role": "whole"}))
+        if k <= exhaustive_upto:
+            for mask in range(1, 1 << (k - 1)):
+                seg, run = [], 1
+                for i in range(k - 1):
+                    if mask >> i & 1:
+                        seg.append(run); run = 1
+                    else:
+                        run += 1
+                seg.append(run)
+                out.append(Case(argv, data, entry="stream", seg=seg, tags={"grp": g, "role": "seg%d" % mask}))
+        else:
+            out.append(Case(argv, data, entry="stream", seg=[1] * k, tags={"grp": g, "role": "bytewise"}))
+            for i in range(3):
+                out.append(Case(argv, data, entry="stream", seg=_rand_seg(rng, k), tags={"grp": g, "role": "rand%d" % i}))
+        if rng.random() < 0.25:
+            out.append(Case(argv, data, entry="main", seg=_rand_seg(rng, k), tags={"grp": g, "role": "cli_seg"}))
+            out.append(Case(argv, data, entry="main", seg=[], tags={"grp": g, "role": "cli_whole"}))
+    return out
+
+
+def c05(rng, count):
+    """line mode: the forward reader, the buffered one, and pairs of equivalent requests"""
+    out = lines(rng, count // 2)
+    g = 0
+    while len(out) < count:
+        g += 1
+        n = rng.randint(1, 5)
+        z = rng.random() < 0.2
+        eol = b"\0" if z else b"\n"
+        # ascending positive request resolvable on n lines
+        cur = 0
+        bs = []
+        for i in range(rng.randint(1, 3)):
+            if cur >= n: break
+            l = rng.randint(max(1, cur), n)
+            r = rng.choice([l, rng.randint(l, n), None])
+            bs.append((l, r, None))
+            if r is None: break
+            cur = r
+        if not bs:
+            continue
+        # an equivalent request that forces buffering: one index written negatively
+        bs2 = list(bs)
+        i = rng.randrange(len(bs2))
+        l, r, _ = bs2[i]
+        if rng.random() < 0.5 or r is None:
+            bs2[i] = (l - n - 1, r if r is None else r - n - 1, None) if (r is None or True) else bs2[i]
+        else:
+            bs2[i] = (l - n - 1, r - n - 1, None)
+        opts = (["-z"] if z else []) + (["--no-join"] if rng.random() < 0.3 else [])
+        data = _uniform_input(rng, "l", n, eol=eol)
+        if data in (b"", eol):
+            continue
+        out.append(Case(["-l", ",".join(_render(b) for b in bs)] + opts, data, tags={"grp": g, "role": "forward"}))
+        out.append(Case(["-l", ",".join(_render(b) for b in bs2)] + opts, data, tags={"grp": g, "role": "buffered"}))
+    return out
+
+
+def c07(rng, count):
+    out = []
+    for _ in range(count):
+        z = rng.random() < 0.2
+        eol = "\0" if z else "\n"
+        fm = rng.random() < 0.2
+        argv = ["-c", gen_bounds(rng, hi=5, fb=0.15, fmt=0.2 if not fm else 0.6, fbtext=["x", "", "é"])] + (["-z"] if z else [])
+        if rng.random() < 0.15 and "{" not in argv[1]: argv.append("--json")
+        if rng.random() < 0.2: argv += ["--fallback-oob", rng.choice(["", "G"])]
+        if rng.random() < 0.08: argv.append("-m")
+        pool = ["a", "b", " ", "é", "ß", "€", "漢", "𝄞", "😀", "é", "́", "-", ".", "_", "1", "\t", "\r", "‍", " "]
+        recs = []
+        for _ in range(rng.randint(0, 3)):
+            k = rng.choice([0, 1, 1, 2, 3, 4, 6])
+            recs.append("".join(rng.choice(pool) for _ in range(k)).replace(eol, ""))
+        data = eol.join(recs) + (eol if recs and rng.random() < 0.7 else "")
+        out.append(Case(argv, data.encode()))
+    return out
+
+
+def c08(rng, count):
+    return jsonf(rng, (2 * count) // 3) + [c for c in c07(rng, count) if b"--json" in c.argv][: count // 3]
+
+
+def c11(rng, count):
+    """pairs (ARGS on I) / (-z ARGS on swap(I)) for every record/line mode"""
+    sw = bytes.maketrans(b"\n\0", b"\0\n")
+    out = []
+    g = 0
+    while len(out) < count:
+        g += 1
+        kind = rng.choice(["general", "fast", "chars", "lines", "stream", "json"])
+        delim = rng.choice([b"-", b",", b"--"]) if kind in ("general", "json") else rng.choice([b"-", b","])
+        if kind == "general":
+            argv = ["-d", delim, "-f", gen_bounds(rng, fillers=["", "x", " ", "{{", "é"])] + [a for a in field_opts(rng, delim)]
+            if "\\n" in argv: argv = [a if a != "\\n" else "/" for a in argv]
+            if not any(a in argv for a in ("-g", "-p", "-r", "-m")) and len(delim) == 1: argv.append("-g")
+        elif kind == "fast":
+            argv = ["-d", delim, "-f", gen_bounds(rng, fillers=["", "x", " ", "}}"])] + field_opts(rng, delim, fast=True)
+        elif kind == "chars":
+            argv = ["-c", gen_bounds(rng, hi=4, fmt=0.1, fillers=["", "x"])]
+        elif kind == "lines":
+            argv = ["-l", rng.choice([gen_forward_bounds(rng, hi=4, strict=False, fmt=0), gen_bounds(rng, hi=4, fmt=0)])]
+            if rng.random() < 0.3: argv.append("--no-join")
+        elif kind == "json":
+            argv = ["--json", "-d", delim, "-f", gen_bounds(rng, fmt=0)]
+        else:
+            argv = ["-M", "1", "-d", delim, "-f", gen_forward_bounds(rng, fmt=0.2)] + (["-j"] if rng.random() < 0.3 else [])
+        if kind in ("chars", "lines", "json"):
+            pool = ["a", "b", "é", "\r", "\n", "\0", " ", delim.decode()]
+            data = "".join(rng.choice(pool) for _ in range(rng.randint(0, 10))).encode()
+        else:
+            alpha = list(b"ab\r\n\0\0\n ") + [delim[0]]
+            data = bytes(rng.choice(alpha) for _ in range(rng.randint(0, 12)))
+        out.append(Case(argv, data, tags={"grp": g, "role": "lf"}))
+        out.append(Case(argv + ["-z"], data.translate(sw), tags={"grp": g, "role": "nul"}))
+    return out
+
+
+BIG = ["2147483647", "-2147483648", "2147483648", "-2147483649", "46341", "65536", "-65536", "60000:50000", "99999999999999999999",
+       "1:2000000000", "-2000000000:", "0", "-0", "+1", "1:-1", "-1:1", "4294967297"]
+WEIRD = ["", " ", "{", "}", "{{", "}}", "{}", "{1", "1}", "{1}}", "{1}}}", "{{1}", "{1{2}", "=", "=x", ":", ":=x", "1=", "1:2:3", ",", "1,,2", "é",
+         "{1}\\n", "\\", "a", "1a", "--", "-", "+", "1:+2", "{1,2=x}", "{1=a}b}", "\t"]
+
+
+def c12(rng, count, exhaustive_len=3):
+    """adversarial argv x stdin; every case must end with status 0 or 1"""
+    out = []
+    stdin_pool = [b"", b"\n", b"a", b"a-b-c\n", b"a-b\nc", b"\xff\xfe-\x80\n", b"\0\0", b"--\n--", b"a\r\n", "é-€\n".encode(), b"-", b"a" * 70]
+    modes = ["-f", "-c", "-b", "-l"]
+    # bounded-exhaustive short bounds strings
+    alpha = ["1", "2", "-", ":", "=", "{", "}", ",", "a", "é"]
+    import itertools
+    strs = []
+    for L in range(1, exhaustive_len + 1):
+        strs += ["".join(t) for t in itertools.product(alpha, repeat=L)]
+    for s in strs:
+        m = modes[hash(s) % 4] if len(s) > 2 else None
+        for mode in ([m] if m else modes):
+            out.append(Case([mode, s] + (["-d", "-"] if mode == "-f" else []), b"a-b-c\nd-e\n"))
+    # adversarial pools
+    flags = ["-g", "-p", "-s", "-z", "-m", "-j", "--no-join", "--json", "-V", "-h"]
+    while len(out) < count + len(strs) * 2:
+        mode = rng.choice(modes)
+        b = rng.choice(BIG + WEIRD + [gen_bounds(rng)])
+        if rng.random() < 0.3:
+            b = b + "," + rng.choice(BIG + WEIRD)
+        argv = [mode, b]
+        if rng.random() < 0.6: argv += ["-d", rng.choice(["-", "", "--", "é", "\n", "a"])]
+        for f in flags:
+            if rng.random() < 0.12: argv.append(f)
+        if rng.random() < 0.2: argv += ["-r", rng.choice(["", "/", "$0", "${", "\\"])]
+        if rng.random() < 0.2: argv += ["-t", rng.choice(["l", "r", "b", "x", ""])]
+        if rng.random() < 0.15: argv += ["-e", rng.choice(["-", "[", "(", "a|", "-+", "\\b", ".*", "", "(?i)a", "$", "^"])]
+        if rng.random() < 0.15: argv += ["-M", rng.choice(["1", "0", "-1", "18014398509481984", "18446744073709551615", "x", "99999999999999999999"])]
+        if rng.random() < 0.15: argv += ["--fallback-oob", rng.choice(["", "x"])]
+        if rng.random() < 0.05: argv.append(rng.choice(["--fallback-oob", "--fallback-oob=", "-f", "--bogus", "-x", "-d"]))
+        rng.shuffle(argv) if rng.random() < 0.1 else None
+        out.append(Case(argv, rng.choice(stdin_pool)))
+    return out
+
+
+def c14(rng, count):
+    """fault positions: read fault at byte k, write fault at byte k (through the shim)"""
+    out = []
+    g = 0
+    while len(out) < count:
+        g += 1
+        kind = rng.choice(["general", "fast", "bytes", "lines_f", "lines_b", "chars", "stream", "json"])
+        delim = b"-"
+        if kind == "general": argv = ["-d", "-", "-f", gen_bounds(rng, hi=3, neg=0.2, fb=0.5), "-g"]
+        elif kind == "fast": argv = ["-d", "-", "-f", gen_bounds(rng, hi=3, neg=0.2, fb=0.5)]
+        elif kind == "bytes": argv = ["-b", gen_bounds(rng, hi=4, fb=0.5)]
+        elif kind == "lines_f": argv = ["-l", gen_forward_bounds(rng, hi=3, strict=False, fmt=0, fb=0.3)]
+        elif kind == "lines_b": argv = ["-l", rng.choice(["-1", "2,1", "-2:"])]
+        elif kind == "chars": argv = ["-c", gen_bounds(rng, hi=3, fmt=0, fb=0.5)]
+        elif kind == "json": argv = ["--json", "-d", "-", "-f", gen_bounds(rng, hi=3, fmt=0, fb=0.5)]
+        else: argv = ["-M", "1", "-d", "-", "-f", gen_forward_bounds(rng, hi=3, fb=0.5)]
+        if rng.random() < 0.4 and "--fallback-oob" not in argv: argv += ["--fallback-oob", "G"]
+        data = gen_input(rng, delim, list(b"ab"), b"\n", maxrec=4, maxfields=4, final_eol_p=0.8)
+        if not data:
+            data = b"a-b\n"
+        out.append(Case(argv, data, tags={"grp": g, "role": "clean"}))
+        for _ in range(2):
+            k = rng.randint(0, len(data))
+            out.append(Case(argv, data, extra={"rfail": str(k)}, tags={"grp": g, "role": "r%d" % k, "fault": ("r", k)}))
+        for _ in range(2):
+            k = rng.randint(0, len(data) + 2)
+            out.append(Case(argv, data, extra={"wfail": str(k)}, tags={"grp": g, "role": "w%d" % k, "fault": ("w", k)}))
+        if rng.random() < 0.3:
+            out.append(Case(argv, data, extra={"wshort": "1"}, tags={"grp": g, "role": "short", "fault": ("s", 1)}))
+    return out
+
+
+def c18_strings(maxlen, alpha=None):
+    import itertools
+    alpha = alpha or ["1", "2", "0", "-", "+", ":", "=", "{", "}", ",", "\\", "n", "a", " ", "é"]
+    for L in range(1, maxlen + 1):
+        for t in itertools.product(alpha, repeat=L):
+            yield "".join(t)
+
+
+def c18(rng, count, maxlen=3):
+    out = []
+    for s in c18_strings(maxlen):
+        out.append(Case([], s.encode(), entry="bounds"))
+    # longer random strings from the same alphabet, biased towards well-formed pieces
+    toks = ["1", "2", "-1", "10", "1:2", "2:", ":3", "-3:-1", "=x", "=", ",", "{", "}", "{{", "}}", "\\n", "\\t", "\\\\", "a", " ", "é", "+2", "0", ":", "1:2=a:b", "{1}", "{2,3}", "{1=x}"]
+    n0 = len(out)
+    while len(out) < n0 + count:
+        s = "".join(rng.choice(toks) for _ in range(rng.randint(1, 6)))
+        out.append(Case([], s.encode(), entry="bounds"))
+        # the rendering, through the real binary on probe records
+        if rng.random() < 0.5:
+            mode = rng.choice(["-f", "-f", "-c", "-b", "-l"])
+            out.append(Case([mode, s] + (["-d", "-"] if mode == "-f" else []), b"a-b-c\nd-e-f\n"))
+    return out
+
+
+OPTS19 = [("-d", "-"), ("-e", "-"), ("-g", None), ("-p", None), ("-s", None), ("-z", None), ("-m", None), ("-j", None),
+          ("--no-join", None), ("--json", None), ("-r", "/"), ("-t", "l"), ("--fallback-oob", "x"), ("-M", "1")]
+
+
+def c19(rng, count, full=False):
+    """subsets of the option set with representative values"""
+    out = []
+    modes = [None, ("-f", "1,2"), ("-c", "1,2"), ("-b", "1,2"), ("-l", "1,2")]
+    stdin = b"a-b-c\nd-e-f\n"
+    def build(mode, mask, variant):
+        argv = []
+        if mode:
+            argv += [mode[0], mode[1]]
+        for i, (k, v) in enumerate(OPTS19):
+            if mask >> i & 1:
+                vv = v
+                if variant and k == "-d" and variant.get("d"): vv = variant["d"]
+                if variant and k == "-r" and variant.get("r"): vv = variant["r"]
+                if variant and k == "-M" and variant.get("M"): vv = variant["M"]
+                argv += [k] if v is None else [k, vv]
+        if variant and variant.get("bounds") and mode:
+            argv[1] = variant["bounds"]
+        return argv
+    if full:
+        for mode in modes:
+            for mask in range(1 << len(OPTS19)):
+                out.append(Case(build(mode, mask, None), stdin))
+    else:
+        for _ in range(count):
+            mode = rng.choice(modes)
+            # few options at a time, so that single conflicts are not masked by others
+            k = rng.choice([0, 1, 1, 2, 2, 3, 4, 6])
+            mask = 0
+            for i in rng.sample(range(len(OPTS19)), k):
+                mask |= 1 << i
+            variant = {}
+            if rng.random() < 0.3: variant["d"] = rng.choice(["--", "é", ""])
+            if rng.random() < 0.3: variant["r"] = rng.choice(["//", "", "é"])
+            if rng.random() < 0.3: variant["M"] = rng.choice(["0", "2", "x"])
+            if rng.random() < 0.5: variant["bounds"] = rng.choice(["1,2", "2,1", "1,1", "1:2,2", "1:2,3", "1,:3", ":1,:2", ":2,3", "1:,2", "-1", "x{1}y", "{1}{2}", "2:3,3", "1,3:"])
+            argv = build(mode, mask, variant)
+            if rng.random() < 0.15:
+                # a different order of the same (option, value) pairs
+                pairs = []
+                i = 0
+                while i < len(argv):
+                    if i + 1 < len(argv) and (argv[i] in ("-f", "-c", "-b", "-l") or any(argv[i] == k and v is not None for k, v in OPTS19)):
+                        pairs.append(argv[i:i + 2]); i += 2
+                    else:
+                        pairs.append(argv[i:i + 1]); i += 1
+                rng.shuffle(pairs)
+                argv2 = [a for p in pairs for a in p]
+                g = len(out)
+                out.append(Case(argv, stdin, tags={"grp": g, "role": "order1"}))
+                out.append(Case(argv2, stdin, tags={"grp": g, "role": "order2"}))
+            else:
+                out.append(Case(argv, stdin))
+    return out
